@@ -257,7 +257,7 @@ func genGroupMapCase(t *rapid.T) *GroupMapCase {
 	if c.Carrier == "listmap" {
 		nm = rapid.IntRange(1, 3).Draw(t, "nMaps")
 	}
-	pool := []string{"", "", "x", "y", "x"}
+	pool := []string{"", "", "x", "y", "x", " ", "\t", "\u3000"} // (a blank is not empty)
 	if c.Carrier == "map-int" {
 		pool = []string{"0", "0", "1", "2", "1"}
 	}
